@@ -101,4 +101,188 @@ THEOREM DetTransposeAll == \A a \in D9 : Det(Transpose(a)) = Det(a)
 <1> SUFFICES ASSUME NEW a \in D9 PROVE Det(Transpose(a)) = Det(a)
   OBVIOUS
 <1> QED BY DetExplicit, TransposeSlots, Comp9, PDetT
+
+(* ---- the adjugate law  A . adj(A) = adj(A) . A = det(A) I, the division-free statement of the inverse ---- *)
+LEMMA TransposeSlotsAny == \A a : Transpose(a)[1] = a[1] /\ Transpose(a)[2] = a[4] /\ Transpose(a)[3] = a[7] /\ Transpose(a)[4] = a[2] /\ Transpose(a)[5] = a[5] /\ Transpose(a)[6] = a[8] /\ Transpose(a)[7] = a[3] /\ Transpose(a)[8] = a[6] /\ Transpose(a)[9] = a[9]
+<1> SUFFICES ASSUME NEW a PROVE Transpose(a)[1] = a[1] /\ Transpose(a)[2] = a[4] /\ Transpose(a)[3] = a[7] /\ Transpose(a)[4] = a[2] /\ Transpose(a)[5] = a[5] /\ Transpose(a)[6] = a[8] /\ Transpose(a)[7] = a[3] /\ Transpose(a)[8] = a[6] /\ Transpose(a)[9] = a[9]
+  OBVIOUS
+<1>0. Transpose(a) = [k \in 1..9 |-> a[3 * ((((k - 1) % 3) + 1) - 1) + (((k - 1) \div 3) + 1)]]
+  BY DEF Transpose, MkDyad, D, DS
+<1>1. Transpose(a)[1] = a[1] BY <1>0, DivMod
+<1>2. Transpose(a)[2] = a[4] BY <1>0, DivMod
+<1>3. Transpose(a)[3] = a[7] BY <1>0, DivMod
+<1>4. Transpose(a)[4] = a[2] BY <1>0, DivMod
+<1>5. Transpose(a)[5] = a[5] BY <1>0, DivMod
+<1>6. Transpose(a)[6] = a[8] BY <1>0, DivMod
+<1>7. Transpose(a)[7] = a[3] BY <1>0, DivMod
+<1>8. Transpose(a)[8] = a[6] BY <1>0, DivMod
+<1>9. Transpose(a)[9] = a[9] BY <1>0, DivMod
+<1> QED BY <1>1, <1>2, <1>3, <1>4, <1>5, <1>6, <1>7, <1>8, <1>9
+LEMMA CofactorsSlots == \A a : Cofactors(a)[1] = (a[5] * a[9] - a[6] * a[8]) /\ Cofactors(a)[2] = (a[6] * a[7] - a[4] * a[9]) /\ Cofactors(a)[3] = (a[4] * a[8] - a[5] * a[7]) /\ Cofactors(a)[4] = (a[8] * a[3] - a[9] * a[2]) /\ Cofactors(a)[5] = (a[9] * a[1] - a[7] * a[3]) /\ Cofactors(a)[6] = (a[7] * a[2] - a[8] * a[1]) /\ Cofactors(a)[7] = (a[2] * a[6] - a[3] * a[5]) /\ Cofactors(a)[8] = (a[3] * a[4] - a[1] * a[6]) /\ Cofactors(a)[9] = (a[1] * a[5] - a[2] * a[4])
+<1> SUFFICES ASSUME NEW a PROVE Cofactors(a)[1] = (a[5] * a[9] - a[6] * a[8]) /\ Cofactors(a)[2] = (a[6] * a[7] - a[4] * a[9]) /\ Cofactors(a)[3] = (a[4] * a[8] - a[5] * a[7]) /\ Cofactors(a)[4] = (a[8] * a[3] - a[9] * a[2]) /\ Cofactors(a)[5] = (a[9] * a[1] - a[7] * a[3]) /\ Cofactors(a)[6] = (a[7] * a[2] - a[8] * a[1]) /\ Cofactors(a)[7] = (a[2] * a[6] - a[3] * a[5]) /\ Cofactors(a)[8] = (a[3] * a[4] - a[1] * a[6]) /\ Cofactors(a)[9] = (a[1] * a[5] - a[2] * a[4])
+  OBVIOUS
+<1>0. Cofactors(a) = [k \in 1..9 |-> Cof(a, ((k - 1) \div 3) + 1, ((k - 1) % 3) + 1)]
+  BY DEF Cofactors, MkDyad
+<1>1. Cofactors(a)[1] = (a[5] * a[9] - a[6] * a[8])
+  BY <1>0, DivMod, NxPv DEF Cof, D, DS
+<1>2. Cofactors(a)[2] = (a[6] * a[7] - a[4] * a[9])
+  BY <1>0, DivMod, NxPv DEF Cof, D, DS
+<1>3. Cofactors(a)[3] = (a[4] * a[8] - a[5] * a[7])
+  BY <1>0, DivMod, NxPv DEF Cof, D, DS
+<1>4. Cofactors(a)[4] = (a[8] * a[3] - a[9] * a[2])
+  BY <1>0, DivMod, NxPv DEF Cof, D, DS
+<1>5. Cofactors(a)[5] = (a[9] * a[1] - a[7] * a[3])
+  BY <1>0, DivMod, NxPv DEF Cof, D, DS
+<1>6. Cofactors(a)[6] = (a[7] * a[2] - a[8] * a[1])
+  BY <1>0, DivMod, NxPv DEF Cof, D, DS
+<1>7. Cofactors(a)[7] = (a[2] * a[6] - a[3] * a[5])
+  BY <1>0, DivMod, NxPv DEF Cof, D, DS
+<1>8. Cofactors(a)[8] = (a[3] * a[4] - a[1] * a[6])
+  BY <1>0, DivMod, NxPv DEF Cof, D, DS
+<1>9. Cofactors(a)[9] = (a[1] * a[5] - a[2] * a[4])
+  BY <1>0, DivMod, NxPv DEF Cof, D, DS
+<1> QED BY <1>1, <1>2, <1>3, <1>4, <1>5, <1>6, <1>7, <1>8, <1>9
+LEMMA AdjugateSlots == \A a : Adjugate(a)[1] = (a[5] * a[9] - a[6] * a[8]) /\ Adjugate(a)[2] = (a[8] * a[3] - a[9] * a[2]) /\ Adjugate(a)[3] = (a[2] * a[6] - a[3] * a[5]) /\ Adjugate(a)[4] = (a[6] * a[7] - a[4] * a[9]) /\ Adjugate(a)[5] = (a[9] * a[1] - a[7] * a[3]) /\ Adjugate(a)[6] = (a[3] * a[4] - a[1] * a[6]) /\ Adjugate(a)[7] = (a[4] * a[8] - a[5] * a[7]) /\ Adjugate(a)[8] = (a[7] * a[2] - a[8] * a[1]) /\ Adjugate(a)[9] = (a[1] * a[5] - a[2] * a[4])
+  BY CofactorsSlots, TransposeSlotsAny DEF Adjugate
+LEMMA MatMulSlots == \A a, b : MatMul(a, b)[1] = a[1] * b[1] + a[2] * b[4] + a[3] * b[7] /\ MatMul(a, b)[2] = a[1] * b[2] + a[2] * b[5] + a[3] * b[8] /\ MatMul(a, b)[3] = a[1] * b[3] + a[2] * b[6] + a[3] * b[9] /\ MatMul(a, b)[4] = a[4] * b[1] + a[5] * b[4] + a[6] * b[7] /\ MatMul(a, b)[5] = a[4] * b[2] + a[5] * b[5] + a[6] * b[8] /\ MatMul(a, b)[6] = a[4] * b[3] + a[5] * b[6] + a[6] * b[9] /\ MatMul(a, b)[7] = a[7] * b[1] + a[8] * b[4] + a[9] * b[7] /\ MatMul(a, b)[8] = a[7] * b[2] + a[8] * b[5] + a[9] * b[8] /\ MatMul(a, b)[9] = a[7] * b[3] + a[8] * b[6] + a[9] * b[9]
+<1> SUFFICES ASSUME NEW a, NEW b PROVE MatMul(a, b)[1] = a[1] * b[1] + a[2] * b[4] + a[3] * b[7] /\ MatMul(a, b)[2] = a[1] * b[2] + a[2] * b[5] + a[3] * b[8] /\ MatMul(a, b)[3] = a[1] * b[3] + a[2] * b[6] + a[3] * b[9] /\ MatMul(a, b)[4] = a[4] * b[1] + a[5] * b[4] + a[6] * b[7] /\ MatMul(a, b)[5] = a[4] * b[2] + a[5] * b[5] + a[6] * b[8] /\ MatMul(a, b)[6] = a[4] * b[3] + a[5] * b[6] + a[6] * b[9] /\ MatMul(a, b)[7] = a[7] * b[1] + a[8] * b[4] + a[9] * b[7] /\ MatMul(a, b)[8] = a[7] * b[2] + a[8] * b[5] + a[9] * b[8] /\ MatMul(a, b)[9] = a[7] * b[3] + a[8] * b[6] + a[9] * b[9]
+  OBVIOUS
+<1>0. MatMul(a, b) = [k \in 1..9 |-> a[3 * ((((k - 1) \div 3) + 1) - 1) + 1] * b[3 * (1 - 1) + (((k - 1) % 3) + 1)] + a[3 * ((((k - 1) \div 3) + 1) - 1) + 2] * b[3 * (2 - 1) + (((k - 1) % 3) + 1)] + a[3 * ((((k - 1) \div 3) + 1) - 1) + 3] * b[3 * (3 - 1) + (((k - 1) % 3) + 1)]]
+  BY DEF MatMul, MkDyad, D, DS
+<1>1. MatMul(a, b)[1] = a[1] * b[1] + a[2] * b[4] + a[3] * b[7]
+  BY <1>0, DivMod
+<1>2. MatMul(a, b)[2] = a[1] * b[2] + a[2] * b[5] + a[3] * b[8]
+  BY <1>0, DivMod
+<1>3. MatMul(a, b)[3] = a[1] * b[3] + a[2] * b[6] + a[3] * b[9]
+  BY <1>0, DivMod
+<1>4. MatMul(a, b)[4] = a[4] * b[1] + a[5] * b[4] + a[6] * b[7]
+  BY <1>0, DivMod
+<1>5. MatMul(a, b)[5] = a[4] * b[2] + a[5] * b[5] + a[6] * b[8]
+  BY <1>0, DivMod
+<1>6. MatMul(a, b)[6] = a[4] * b[3] + a[5] * b[6] + a[6] * b[9]
+  BY <1>0, DivMod
+<1>7. MatMul(a, b)[7] = a[7] * b[1] + a[8] * b[4] + a[9] * b[7]
+  BY <1>0, DivMod
+<1>8. MatMul(a, b)[8] = a[7] * b[2] + a[8] * b[5] + a[9] * b[8]
+  BY <1>0, DivMod
+<1>9. MatMul(a, b)[9] = a[7] * b[3] + a[8] * b[6] + a[9] * b[9]
+  BY <1>0, DivMod
+<1> QED BY <1>1, <1>2, <1>3, <1>4, <1>5, <1>6, <1>7, <1>8, <1>9
+LEMMA IdentitySlots == Identity[1] = 1 /\ Identity[2] = 0 /\ Identity[3] = 0 /\ Identity[4] = 0 /\ Identity[5] = 1 /\ Identity[6] = 0 /\ Identity[7] = 0 /\ Identity[8] = 0 /\ Identity[9] = 1
+  BY DivMod DEF Identity, MkDyad
+THEOREM AdjugateLawAll == \A a \in D9 : \A k \in 1..9 : MatMul(a, Adjugate(a))[k] = Det(a) * Identity[k] /\ MatMul(Adjugate(a), a)[k] = Det(a) * Identity[k]
+<1> SUFFICES ASSUME NEW a \in D9 PROVE \A k \in 1..9 : MatMul(a, Adjugate(a))[k] = Det(a) * Identity[k] /\ MatMul(Adjugate(a), a)[k] = Det(a) * Identity[k]
+  OBVIOUS
+<1>d. Det(a) = (a[1] * (a[5] * a[9] - a[6] * a[8]) + a[2] * (a[6] * a[7] - a[4] * a[9]) + a[3] * (a[4] * a[8] - a[5] * a[7])) BY DetExplicit
+<1>i. a[1] \in Int /\ a[2] \in Int /\ a[3] \in Int /\ a[4] \in Int /\ a[5] \in Int /\ a[6] \in Int /\ a[7] \in Int /\ a[8] \in Int /\ a[9] \in Int
+  BY DEF D9
+<1>1. MatMul(a, Adjugate(a))[1] = Det(a) * Identity[1] /\ MatMul(Adjugate(a), a)[1] = Det(a) * Identity[1]
+  <2>1. MatMul(a, Adjugate(a))[1] = a[1] * (a[5] * a[9] - a[6] * a[8]) + a[2] * (a[6] * a[7] - a[4] * a[9]) + a[3] * (a[4] * a[8] - a[5] * a[7])
+    BY MatMulSlots, AdjugateSlots
+  <2>2. MatMul(Adjugate(a), a)[1] = (a[5] * a[9] - a[6] * a[8]) * a[1] + (a[8] * a[3] - a[9] * a[2]) * a[4] + (a[2] * a[6] - a[3] * a[5]) * a[7]
+    BY MatMulSlots, AdjugateSlots
+  <2>3. a[1] * (a[5] * a[9] - a[6] * a[8]) + a[2] * (a[6] * a[7] - a[4] * a[9]) + a[3] * (a[4] * a[8] - a[5] * a[7]) = (a[1] * (a[5] * a[9] - a[6] * a[8]) + a[2] * (a[6] * a[7] - a[4] * a[9]) + a[3] * (a[4] * a[8] - a[5] * a[7]))
+    BY <1>i
+  <2>4. (a[5] * a[9] - a[6] * a[8]) * a[1] + (a[8] * a[3] - a[9] * a[2]) * a[4] + (a[2] * a[6] - a[3] * a[5]) * a[7] = (a[1] * (a[5] * a[9] - a[6] * a[8]) + a[2] * (a[6] * a[7] - a[4] * a[9]) + a[3] * (a[4] * a[8] - a[5] * a[7]))
+    BY <1>i
+  <2>5. Det(a) * Identity[1] = (a[1] * (a[5] * a[9] - a[6] * a[8]) + a[2] * (a[6] * a[7] - a[4] * a[9]) + a[3] * (a[4] * a[8] - a[5] * a[7]))
+    BY <1>d, <1>i, IdentitySlots
+  <2> QED BY <2>1, <2>2, <2>3, <2>4, <2>5
+<1>2. MatMul(a, Adjugate(a))[2] = Det(a) * Identity[2] /\ MatMul(Adjugate(a), a)[2] = Det(a) * Identity[2]
+  <2>1. MatMul(a, Adjugate(a))[2] = a[1] * (a[8] * a[3] - a[9] * a[2]) + a[2] * (a[9] * a[1] - a[7] * a[3]) + a[3] * (a[7] * a[2] - a[8] * a[1])
+    BY MatMulSlots, AdjugateSlots
+  <2>2. MatMul(Adjugate(a), a)[2] = (a[5] * a[9] - a[6] * a[8]) * a[2] + (a[8] * a[3] - a[9] * a[2]) * a[5] + (a[2] * a[6] - a[3] * a[5]) * a[8]
+    BY MatMulSlots, AdjugateSlots
+  <2>3. a[1] * (a[8] * a[3] - a[9] * a[2]) + a[2] * (a[9] * a[1] - a[7] * a[3]) + a[3] * (a[7] * a[2] - a[8] * a[1]) = 0
+    BY <1>i
+  <2>4. (a[5] * a[9] - a[6] * a[8]) * a[2] + (a[8] * a[3] - a[9] * a[2]) * a[5] + (a[2] * a[6] - a[3] * a[5]) * a[8] = 0
+    BY <1>i
+  <2>5. Det(a) * Identity[2] = 0
+    BY <1>d, <1>i, IdentitySlots
+  <2> QED BY <2>1, <2>2, <2>3, <2>4, <2>5
+<1>3. MatMul(a, Adjugate(a))[3] = Det(a) * Identity[3] /\ MatMul(Adjugate(a), a)[3] = Det(a) * Identity[3]
+  <2>1. MatMul(a, Adjugate(a))[3] = a[1] * (a[2] * a[6] - a[3] * a[5]) + a[2] * (a[3] * a[4] - a[1] * a[6]) + a[3] * (a[1] * a[5] - a[2] * a[4])
+    BY MatMulSlots, AdjugateSlots
+  <2>2. MatMul(Adjugate(a), a)[3] = (a[5] * a[9] - a[6] * a[8]) * a[3] + (a[8] * a[3] - a[9] * a[2]) * a[6] + (a[2] * a[6] - a[3] * a[5]) * a[9]
+    BY MatMulSlots, AdjugateSlots
+  <2>3. a[1] * (a[2] * a[6] - a[3] * a[5]) + a[2] * (a[3] * a[4] - a[1] * a[6]) + a[3] * (a[1] * a[5] - a[2] * a[4]) = 0
+    BY <1>i
+  <2>4. (a[5] * a[9] - a[6] * a[8]) * a[3] + (a[8] * a[3] - a[9] * a[2]) * a[6] + (a[2] * a[6] - a[3] * a[5]) * a[9] = 0
+    BY <1>i
+  <2>5. Det(a) * Identity[3] = 0
+    BY <1>d, <1>i, IdentitySlots
+  <2> QED BY <2>1, <2>2, <2>3, <2>4, <2>5
+<1>4. MatMul(a, Adjugate(a))[4] = Det(a) * Identity[4] /\ MatMul(Adjugate(a), a)[4] = Det(a) * Identity[4]
+  <2>1. MatMul(a, Adjugate(a))[4] = a[4] * (a[5] * a[9] - a[6] * a[8]) + a[5] * (a[6] * a[7] - a[4] * a[9]) + a[6] * (a[4] * a[8] - a[5] * a[7])
+    BY MatMulSlots, AdjugateSlots
+  <2>2. MatMul(Adjugate(a), a)[4] = (a[6] * a[7] - a[4] * a[9]) * a[1] + (a[9] * a[1] - a[7] * a[3]) * a[4] + (a[3] * a[4] - a[1] * a[6]) * a[7]
+    BY MatMulSlots, AdjugateSlots
+  <2>3. a[4] * (a[5] * a[9] - a[6] * a[8]) + a[5] * (a[6] * a[7] - a[4] * a[9]) + a[6] * (a[4] * a[8] - a[5] * a[7]) = 0
+    BY <1>i
+  <2>4. (a[6] * a[7] - a[4] * a[9]) * a[1] + (a[9] * a[1] - a[7] * a[3]) * a[4] + (a[3] * a[4] - a[1] * a[6]) * a[7] = 0
+    BY <1>i
+  <2>5. Det(a) * Identity[4] = 0
+    BY <1>d, <1>i, IdentitySlots
+  <2> QED BY <2>1, <2>2, <2>3, <2>4, <2>5
+<1>5. MatMul(a, Adjugate(a))[5] = Det(a) * Identity[5] /\ MatMul(Adjugate(a), a)[5] = Det(a) * Identity[5]
+  <2>1. MatMul(a, Adjugate(a))[5] = a[4] * (a[8] * a[3] - a[9] * a[2]) + a[5] * (a[9] * a[1] - a[7] * a[3]) + a[6] * (a[7] * a[2] - a[8] * a[1])
+    BY MatMulSlots, AdjugateSlots
+  <2>2. MatMul(Adjugate(a), a)[5] = (a[6] * a[7] - a[4] * a[9]) * a[2] + (a[9] * a[1] - a[7] * a[3]) * a[5] + (a[3] * a[4] - a[1] * a[6]) * a[8]
+    BY MatMulSlots, AdjugateSlots
+  <2>3. a[4] * (a[8] * a[3] - a[9] * a[2]) + a[5] * (a[9] * a[1] - a[7] * a[3]) + a[6] * (a[7] * a[2] - a[8] * a[1]) = (a[1] * (a[5] * a[9] - a[6] * a[8]) + a[2] * (a[6] * a[7] - a[4] * a[9]) + a[3] * (a[4] * a[8] - a[5] * a[7]))
+    BY <1>i
+  <2>4. (a[6] * a[7] - a[4] * a[9]) * a[2] + (a[9] * a[1] - a[7] * a[3]) * a[5] + (a[3] * a[4] - a[1] * a[6]) * a[8] = (a[1] * (a[5] * a[9] - a[6] * a[8]) + a[2] * (a[6] * a[7] - a[4] * a[9]) + a[3] * (a[4] * a[8] - a[5] * a[7]))
+    BY <1>i
+  <2>5. Det(a) * Identity[5] = (a[1] * (a[5] * a[9] - a[6] * a[8]) + a[2] * (a[6] * a[7] - a[4] * a[9]) + a[3] * (a[4] * a[8] - a[5] * a[7]))
+    BY <1>d, <1>i, IdentitySlots
+  <2> QED BY <2>1, <2>2, <2>3, <2>4, <2>5
+<1>6. MatMul(a, Adjugate(a))[6] = Det(a) * Identity[6] /\ MatMul(Adjugate(a), a)[6] = Det(a) * Identity[6]
+  <2>1. MatMul(a, Adjugate(a))[6] = a[4] * (a[2] * a[6] - a[3] * a[5]) + a[5] * (a[3] * a[4] - a[1] * a[6]) + a[6] * (a[1] * a[5] - a[2] * a[4])
+    BY MatMulSlots, AdjugateSlots
+  <2>2. MatMul(Adjugate(a), a)[6] = (a[6] * a[7] - a[4] * a[9]) * a[3] + (a[9] * a[1] - a[7] * a[3]) * a[6] + (a[3] * a[4] - a[1] * a[6]) * a[9]
+    BY MatMulSlots, AdjugateSlots
+  <2>3. a[4] * (a[2] * a[6] - a[3] * a[5]) + a[5] * (a[3] * a[4] - a[1] * a[6]) + a[6] * (a[1] * a[5] - a[2] * a[4]) = 0
+    BY <1>i
+  <2>4. (a[6] * a[7] - a[4] * a[9]) * a[3] + (a[9] * a[1] - a[7] * a[3]) * a[6] + (a[3] * a[4] - a[1] * a[6]) * a[9] = 0
+    BY <1>i
+  <2>5. Det(a) * Identity[6] = 0
+    BY <1>d, <1>i, IdentitySlots
+  <2> QED BY <2>1, <2>2, <2>3, <2>4, <2>5
+<1>7. MatMul(a, Adjugate(a))[7] = Det(a) * Identity[7] /\ MatMul(Adjugate(a), a)[7] = Det(a) * Identity[7]
+  <2>1. MatMul(a, Adjugate(a))[7] = a[7] * (a[5] * a[9] - a[6] * a[8]) + a[8] * (a[6] * a[7] - a[4] * a[9]) + a[9] * (a[4] * a[8] - a[5] * a[7])
+    BY MatMulSlots, AdjugateSlots
+  <2>2. MatMul(Adjugate(a), a)[7] = (a[4] * a[8] - a[5] * a[7]) * a[1] + (a[7] * a[2] - a[8] * a[1]) * a[4] + (a[1] * a[5] - a[2] * a[4]) * a[7]
+    BY MatMulSlots, AdjugateSlots
+  <2>3. a[7] * (a[5] * a[9] - a[6] * a[8]) + a[8] * (a[6] * a[7] - a[4] * a[9]) + a[9] * (a[4] * a[8] - a[5] * a[7]) = 0
+    BY <1>i
+  <2>4. (a[4] * a[8] - a[5] * a[7]) * a[1] + (a[7] * a[2] - a[8] * a[1]) * a[4] + (a[1] * a[5] - a[2] * a[4]) * a[7] = 0
+    BY <1>i
+  <2>5. Det(a) * Identity[7] = 0
+    BY <1>d, <1>i, IdentitySlots
+  <2> QED BY <2>1, <2>2, <2>3, <2>4, <2>5
+<1>8. MatMul(a, Adjugate(a))[8] = Det(a) * Identity[8] /\ MatMul(Adjugate(a), a)[8] = Det(a) * Identity[8]
+  <2>1. MatMul(a, Adjugate(a))[8] = a[7] * (a[8] * a[3] - a[9] * a[2]) + a[8] * (a[9] * a[1] - a[7] * a[3]) + a[9] * (a[7] * a[2] - a[8] * a[1])
+    BY MatMulSlots, AdjugateSlots
+  <2>2. MatMul(Adjugate(a), a)[8] = (a[4] * a[8] - a[5] * a[7]) * a[2] + (a[7] * a[2] - a[8] * a[1]) * a[5] + (a[1] * a[5] - a[2] * a[4]) * a[8]
+    BY MatMulSlots, AdjugateSlots
+  <2>3. a[7] * (a[8] * a[3] - a[9] * a[2]) + a[8] * (a[9] * a[1] - a[7] * a[3]) + a[9] * (a[7] * a[2] - a[8] * a[1]) = 0
+    BY <1>i
+  <2>4. (a[4] * a[8] - a[5] * a[7]) * a[2] + (a[7] * a[2] - a[8] * a[1]) * a[5] + (a[1] * a[5] - a[2] * a[4]) * a[8] = 0
+    BY <1>i
+  <2>5. Det(a) * Identity[8] = 0
+    BY <1>d, <1>i, IdentitySlots
+  <2> QED BY <2>1, <2>2, <2>3, <2>4, <2>5
+<1>9. MatMul(a, Adjugate(a))[9] = Det(a) * Identity[9] /\ MatMul(Adjugate(a), a)[9] = Det(a) * Identity[9]
+  <2>1. MatMul(a, Adjugate(a))[9] = a[7] * (a[2] * a[6] - a[3] * a[5]) + a[8] * (a[3] * a[4] - a[1] * a[6]) + a[9] * (a[1] * a[5] - a[2] * a[4])
+    BY MatMulSlots, AdjugateSlots
+  <2>2. MatMul(Adjugate(a), a)[9] = (a[4] * a[8] - a[5] * a[7]) * a[3] + (a[7] * a[2] - a[8] * a[1]) * a[6] + (a[1] * a[5] - a[2] * a[4]) * a[9]
+    BY MatMulSlots, AdjugateSlots
+  <2>3. a[7] * (a[2] * a[6] - a[3] * a[5]) + a[8] * (a[3] * a[4] - a[1] * a[6]) + a[9] * (a[1] * a[5] - a[2] * a[4]) = (a[1] * (a[5] * a[9] - a[6] * a[8]) + a[2] * (a[6] * a[7] - a[4] * a[9]) + a[3] * (a[4] * a[8] - a[5] * a[7]))
+    BY <1>i
+  <2>4. (a[4] * a[8] - a[5] * a[7]) * a[3] + (a[7] * a[2] - a[8] * a[1]) * a[6] + (a[1] * a[5] - a[2] * a[4]) * a[9] = (a[1] * (a[5] * a[9] - a[6] * a[8]) + a[2] * (a[6] * a[7] - a[4] * a[9]) + a[3] * (a[4] * a[8] - a[5] * a[7]))
+    BY <1>i
+  <2>5. Det(a) * Identity[9] = (a[1] * (a[5] * a[9] - a[6] * a[8]) + a[2] * (a[6] * a[7] - a[4] * a[9]) + a[3] * (a[4] * a[8] - a[5] * a[7]))
+    BY <1>d, <1>i, IdentitySlots
+  <2> QED BY <2>1, <2>2, <2>3, <2>4, <2>5
+<1> QED BY <1>1, <1>2, <1>3, <1>4, <1>5, <1>6, <1>7, <1>8, <1>9
 =============================================================================
